@@ -137,13 +137,22 @@ class Executor:
         o = self.objs[oid]
         k = self.kinds[oid]
         if k == "program":
+            def dumps_of_copy():
+                try:
+                    text = self.bb.dumps(copy.deepcopy(o))
+                    return ["text", D.normalise_message(text, self.root)]
+                except Exception as e:
+                    return D.render_exception(e, self.root, with_message=False)
+            # the serialisation of an equal copy is taken BEFORE the attributes are read (the
+            # rendering below reads every public attribute of the live object) and once more
+            # afterwards: attribute reads are among the operations that must change nothing
+            dz = dumps_of_copy()
             r = D.render_program(o, self.root, self.loose)
-            try:
-                text = self.bb.dumps(copy.deepcopy(o))
-                dz = ["text", D.normalise_message(text, self.root)]
-            except Exception as e:
-                dz = D.render_exception(e, self.root, with_message=False)
-            return [r, ["dumps_of_copy", dz]]
+            dz2 = dumps_of_copy()
+            out = [r, ["dumps_of_copy", dz]]
+            if dz2 != dz:
+                out.append(["dumps_of_copy_after_attribute_reads", dz2])
+            return out
         if k == "graph":
             nodes = [[n, [[a, D.render(v, self.root, self.loose)] for a, v in sorted(attrs.items())]]
                      for n, attrs in sorted(o.nodes(data=True))]
@@ -156,6 +165,8 @@ class Executor:
             try:
                 r = self.render_obj(oid)
                 out[oid] = [D.sha(r), D.sha(r[1][1]) if self.kinds[oid] == "program" else ""]
+                if self.kinds[oid] == "program" and len(r) > 2:
+                    out[oid].append("attribute reads changed the serialisation")
             except Exception as e:
                 out[oid] = ["unobservable:" + type(e).__name__, ""]
         return out
@@ -310,11 +321,18 @@ class Executor:
             ev["where"] = intr.where
         if prog is not None:
             oid = st.get("out")
+            def dumps_of_copy():
+                try:
+                    return ["text", D.normalise_message(self.bb.dumps(copy.deepcopy(prog)), self.root)]
+                except Exception as e:
+                    return D.render_exception(e, self.root, False)
+            # serialisation of an equal copy before and after the first read of the public
+            # attributes (the rendering reads all of them on the live object)
+            ev["dumps"] = dumps_of_copy()
             ev["res"] = D.render_program(prog, self.root, self.loose)
-            try:
-                ev["dumps"] = ["text", D.normalise_message(self.bb.dumps(copy.deepcopy(prog)), self.root)]
-            except Exception as e:
-                ev["dumps"] = D.render_exception(e, self.root, False)
+            again = dumps_of_copy()
+            if again != ev["dumps"]:
+                ev["attr_reads_changed_dumps"] = [ev["dumps"], again]
             if oid:
                 self.objs[oid] = prog
                 self.kinds[oid] = "program"
@@ -592,6 +610,17 @@ class Executor:
                 for a in list(c.get("args", [])) + list(c.get("kwargs", {}).values()):
                     if isinstance(a, np.ndarray) and a.size and a.dtype != object:
                         a.flat[0] = a.flat[0] + 1
+                        return ["mutated", kind]
+        elif kind == "regref_edit" and ops:
+            # an in-place edit of a register transform's own attributes (what a caller-side
+            # relabelling pass does): the transform is part of this program, of no other
+            for c in ops:
+                for a in list(c.get("args", [])) + list(c.get("kwargs", {}).values()):
+                    if hasattr(a, "regrefs") and hasattr(a, "func_str"):
+                        if n % 2 == 0 and isinstance(a.regrefs, list):
+                            a.regrefs.append(90 + n)
+                        else:
+                            a.func_str = str(a.func_str) + " + 0*zz"
                         return ["mutated", kind]
         elif kind == "list_kwarg_append" and ops:
             for c in ops:
